@@ -43,6 +43,7 @@ from pdfminer.pdftypes import (
     dict_value,
     int_value,
     list_value,
+    resolve1,
     str_value,
     stream_value,
     uint_value,
@@ -968,25 +969,41 @@ class PDFDocument:
         # may raise KeyError
         d0 = dict_value(names[cat])
 
-        def lookup(d: Dict[str, Any]) -> Any:
+        def lookup(d: Dict[str, Any], visited: Set[int]) -> Any:
             if "Limits" in d:
-                (k1, k2) = list_value(d["Limits"])
-                if key < k1 or k2 < key:
+                limits = [resolve1(v) for v in list_value(d["Limits"])]
+                # The keys of a name tree are strings. Limits of any other
+                # shape are malformed and cannot be used to skip the node.
+                if (
+                    len(limits) == 2
+                    and isinstance(limits[0], bytes)
+                    and isinstance(limits[1], bytes)
+                    and (key < limits[0] or limits[1] < key)
+                ):
                     return None
             if "Names" in d:
                 objs = list_value(d["Names"])
-                names = dict(
-                    cast(Iterator[Tuple[Union[str, bytes], Any]], choplist(2, objs)),
-                )
+                names: Dict[Union[str, bytes], Any] = {}
+                for k, v in choplist(2, objs):
+                    k = resolve1(k)
+                    if isinstance(k, (str, bytes)):
+                        names[k] = v
+                if key not in names:
+                    raise PDFKeyError((cat, key))
                 return names[key]
             if "Kids" in d:
                 for c in list_value(d["Kids"]):
-                    v = lookup(dict_value(c))
+                    if isinstance(c, PDFObjRef):
+                        if c.objid in visited:
+                            log.warning("Name tree node %r is its own descendant", c)
+                            continue
+                        visited.add(c.objid)
+                    v = lookup(dict_value(c), visited)
                     if v:
                         return v
             raise PDFKeyError((cat, key))
 
-        return lookup(d0)
+        return lookup(d0, set())
 
     def get_dest(self, name: Union[str, bytes]) -> Any:
         try:
